@@ -133,7 +133,8 @@ func Execute(t *testing.T, sc *Scenario, plan *Plan, ch *Chooser, maxSteps int, 
 		var buf []*simrt.Task
 		steps := 0
 		lastFaultStep := 0
-		var lastActive, idle time.Duration
+		var lastActive, idle, lastEnvVT time.Duration
+		lastEnvStep := 0
 		nfaults := 0
 		for res.Infra == "" {
 			synctest.Wait()
@@ -146,6 +147,7 @@ func Execute(t *testing.T, sc *Scenario, plan *Plan, ch *Chooser, maxSteps int, 
 			}
 			if plan.CancelStep >= 0 && steps >= plan.CancelStep && !e.Cancelled.Load() {
 				e.Cancel("step")
+				lastEnvStep, lastEnvVT = steps, s.Now() // the cancel is an environment move
 				continue
 			}
 			if n := total(e.Faults); n != nfaults {
@@ -153,9 +155,31 @@ func Execute(t *testing.T, sc *Scenario, plan *Plan, ch *Chooser, maxSteps int, 
 				lastFaultStep = steps
 			}
 			buf = s.Runnable(buf)
-			if len(buf) == 0 {
+			// "settled": only library tasks have run for a long stretch while
+			// the virtual clock kept advancing, no environment task is runnable
+			// or asleep — what is left is periodic library activity (a pacer
+			// that ticks for ever is allowed to). Treated like quiescence, so
+			// that a legitimately periodic goroutine is not mistaken for a
+			// livelock; a loop that makes no virtual-time progress still runs
+			// into the step cap.
+			settled := false
+			if len(buf) > 0 && steps-lastEnvStep >= 1500 && s.Now() > lastEnvVT {
+				settled = true
+				for _, t := range buf {
+					if !t.Lib {
+						settled = false
+					}
+				}
+				if settled && s.EnvAsleep() {
+					settled = false
+				}
+				if settled {
+					e.Probe("settled_with_periodic_library_activity")
+				}
+			}
+			if len(buf) == 0 || settled {
 				live, _ := s.Live()
-				if live > 0 {
+				if live > 0 && !settled {
 					tm := time.NewTimer(horizon)
 					woke := false
 					before := s.Now()
@@ -174,19 +198,34 @@ func Execute(t *testing.T, sc *Scenario, plan *Plan, ch *Chooser, maxSteps int, 
 				if (plan.CancelAtEnd || plan.CancelStep >= 0) && !e.Cancelled.Load() {
 					e.Probe("cancel_at_quiescence")
 					e.Cancel("quiescence")
+					lastEnvStep, lastEnvVT = steps, s.Now()
 					continue
 				}
 				if e.AtQuiescence != nil && e.AtQuiescence() {
+					lastEnvStep, lastEnvVT = steps, s.Now()
 					continue
+				}
+				if settled {
+					lastEnvStep, lastEnvVT = steps, s.Now() // a new phase or a cancel needs its own stretch
 				}
 				e.Quiescent = true
 				break
 			}
 			if steps >= maxSteps {
+				if steps-lastEnvStep >= 1500 && s.Now() > lastEnvVT {
+					// periodic library activity (clock advancing, no environment
+					// step for a long stretch, an environment task still asleep)
+					// used up the step budget: inconclusive, not a livelock
+					e.Probe("step_budget_exhausted_by_periodic_activity")
+					break
+				}
 				e.StepCap = true
 				break
 			}
 			i := ch.PickTask(buf)
+			if !buf[i].Lib {
+				lastEnvStep, lastEnvVT = steps, s.Now()
+			}
 			steps++
 			lastActive = s.Now() - idle
 			s.Release(buf[i])
